@@ -45,6 +45,9 @@ func componentClass(v ssa.Value) string {
 		case "math/big.Int.Text", "math/big.Int.String":
 			return "var:alnum"
 		case "strconv.Itoa", "strconv.FormatInt", "strconv.FormatUint":
+			if len(x.Call.Args) > 0 && lossyProjection(x.Call.Args[0], 4) {
+				return "lossy"
+			}
 			return "var:alnum"
 		case "encoding/hex.EncodeToString":
 			// hex of a slice of a fixed-size array has a fixed width
@@ -108,6 +111,8 @@ func keyAmbiguity(key ssa.Value) (string, []string) {
 	nvar := 0
 	for _, cl := range classes {
 		switch {
+		case cl == "lossy":
+			return "a key component is rendered from a truncated value (big.Int.Uint64/Int64 or a narrowing conversion): values that differ only in the dropped bits share a key", classes
 		case cl == "sep":
 			open = false
 		case strings.HasPrefix(cl, "var:") || cl == "unknown":
@@ -119,6 +124,32 @@ func keyAmbiguity(key ssa.Value) (string, []string) {
 		}
 	}
 	return "", classes
+}
+
+// lossyProjection: v is (a conversion of) a value obtained by dropping
+// information from a wider one: big.Int.Uint64 / Int64, or a narrowing integer
+// conversion.
+func lossyProjection(v ssa.Value, depth int) bool {
+	if depth == 0 {
+		return false
+	}
+	switch x := v.(type) {
+	case *ssa.Call:
+		switch CalleeName(x) {
+		case "math/big.Int.Uint64", "math/big.Int.Int64":
+			return true
+		}
+	case *ssa.Convert:
+		sb, ok1 := intSize(x.X.Type())
+		db, ok2 := intSize(x.Type())
+		if ok1 && ok2 && db < sb {
+			return true
+		}
+		return lossyProjection(x.X, depth-1)
+	case *ssa.ChangeType:
+		return lossyProjection(x.X, depth-1)
+	}
+	return false
 }
 
 func init() {
@@ -287,7 +318,7 @@ func init() {
 			}
 			// each cache field gets its own cache: keys carry no event-type tag, so two
 			// event kinds sharing one TimeCache could be mistaken for one another
-			r.Rule("C37.cache-per-event", "every TimeCache field is initialised with its own NewTimeCache", 4)
+			r.Rule("C37.cache-per-event", "every TimeCache field is initialised with its own NewTimeCache, in the owner's constructor only", 8)
 			for _, fn := range r.W.AllFuncs {
 				byVal := map[ssa.Value][]string{}
 				var order []ssa.Value
@@ -305,6 +336,14 @@ func init() {
 						order = append(order, st.Val)
 					}
 					byVal[st.Val] = append(byVal[st.Val], f)
+					// the cache lives as long as its owner: it is set where the owner is built, nowhere else
+					top := fn
+					for top.Parent() != nil {
+						top = top.Parent()
+					}
+					owner := namedOf(fa.X.Type())
+					okCtor := owner != nil && owner.Obj().Pkg() != nil && allocatesType(top, short(owner.Obj().Pkg().Path()), owner.Obj().Name())
+					r.Cond(okCtor, "C37.cache-per-event", FnName(fn)+"#set:"+f, st.Pos(), "the cache field "+f+" is assigned only where its owner is constructed (replacing it later forgets the events seen so far)")
 				})
 				for _, v := range order {
 					fields := byVal[v]
